@@ -59,6 +59,12 @@ def run(chk):
         # ---------------- numscript run
         n = chk.size(150, 2500)
         cases, gens = P.make_cases("C20", chk.seed, n, profile_override={"origins": 0.4, "stmts_max": 3})
+        # texts with parse errors too (the CLI must display them and exit 1)
+        for k, c0 in enumerate(list(cases[: chk.size(15, 200)])):
+            for b in gen_check.broken_variants(c0["script"], rng, 2):
+                if "\x00" not in b:
+                    cases.append({"id": len(cases), "op": "exec", "script": b, "vars": dict(c0.get("vars", {})), "balances": c0.get("balances", {}),
+                                  "meta": c0.get("meta", {}), "failAt": -1})
         for c in cases:
             c["store"] = "static"
             c["perStmt"] = False
@@ -82,8 +88,39 @@ def run(chk):
                                       "-b", os.path.join(d, "b.json"), "-m", os.path.join(d, "m.json")] + common, None))
         with ThreadPoolExecutor(max_workers=runner.NPROC) as ex:
             results = list(ex.map(lambda j: run_cli(j[2], j[3]), jobs))
+        # the model of `run` (Model/CliRun.lean) on what the library computed: stdout, stderr and status, byte for byte
+        mlines, midx = [], {}
+        for i, (c, o) in enumerate(zip(cases, gos)):
+            if "go" not in o:
+                continue
+            go = o["go"]
+            if o.get("parseErrorList"):
+                kind, payload = "parse", " ".join("%s %s" % (r, runner.enc(m)) for r, m in o["parseErrorList"])
+            elif go["outcome"] == "err":
+                kind, payload = "fail", "%s %s" % (go.get("errRange", "0:0-0:0"), runner.enc(go.get("errMsg", "")))
+            elif go["outcome"] == "ok" and go.get("resultJson"):
+                kind, payload = "ok", runner.enc(go["resultJson"])
+            else:
+                continue
+            midx[i] = len(mlines)
+            mlines.append("clirun\t%d\t%s\t%s\t%s" % (i, runner.enc(c["script"]), kind, payload))
+        mouts = runner.run_lean(mlines) if mlines else []
         for (i, chan, argv, _), (code, out, err) in zip(jobs, results):
             c, go = cases[i], gos[i]["go"]
+            if i in midx:
+                f = (mouts[midx[i]] or "").split("\t")
+                stats["model_comparisons"] = stats.get("model_comparisons", 0) + 1
+                if len(f) >= 5 and f[1] == "ok":
+                    unh = lambda h: binascii.unhexlify(h).decode("utf-8", "replace") if h != "-" else ""
+                    if (unh(f[2]), unh(f[3]), int(f[4])) != (out, err, code):
+                        model_dis.append((dict(c, _argv=argv[1:4]), {"exit": code, "stdout": out[:600], "stderr": err[:600]},
+                                          {"exit": f[4], "stdout": unh(f[2])[:600], "stderr": unh(f[3])[:600]},
+                                          ["[%s] what `run` wrote differs from the model's output for the library's outcome" % chan]))
+                elif len(f) >= 2 and f[1] == "panic":
+                    if code == 0:
+                        model_dis.append((dict(c, _argv=argv[1:4]), {"exit": code}, mouts[midx[i]][:200], ["model: displaying the error panics; the CLI exits 0"]))
+                else:
+                    model_dis.append((dict(c, _argv=argv[1:4]), {"exit": code}, (mouts[midx[i]] or "")[:200], ["run model failed"]))
             stats["run_runs"] += 1
             stats["disagreements_checked"] += 1
             why = []
@@ -201,7 +238,6 @@ def run(chk):
         # model of the report (Model/CliReport.lean) on the same diagnostics: byte-identical stdout, same status
         lines = ["checkreport\t%d\t%s\t%s" % (i, runner.enc(argv[2]), " ".join("%s %s %s %s" % (l, ch, sv, runner.enc(msg)) for l, ch, sv, msg in ordered))
                  for i, (t, argv, code, out, ordered, o) in enumerate(report_jobs)]
-        model_dis = []
         for (t, argv, code, out, ordered, o), ml in zip(report_jobs, runner.run_lean(lines) if lines else []):
             f = (ml or "").split("\t")
             stats["model_comparisons"] = stats.get("model_comparisons", 0) + 1
